@@ -162,9 +162,9 @@ fn c04() {
     // a burst of 40 entries and a second request arriving while the stream is flushed for the
     // first one, the next drain pass cut short by the deadline (clock jump at the k-th read)
     for k in 0..tier.pick(12, 24) {
-        jobs.push(Job { harness: "c04_request_during_flush", cfg: json!({"burst": 40, "jump_k": k, "pb": tier.pick(1, 2), "max_branches": 20000}) });
+        jobs.push(Job { harness: "c04_request_during_flush", cfg: json!({"burst": 40, "jump_k": k, "pb": 1, "max_branches": 20000}) });
     }
-    jobs.push(Job { harness: "c04_request_during_flush", cfg: json!({"burst": 40, "pb": tier.pick(1, 2), "max_branches": 20000}) });
+    jobs.push(Job { harness: "c04_request_during_flush", cfg: json!({"burst": 40, "pb": 1, "max_branches": 20000}) });
     finish(rep, jobs, "Every schedule (DPOR, preemption bound) of appends and flush requests (same thread, separate threads, two requesters, after shutdown, pending across the writer's shutdown, capacities 1/2/8, clock jump at every early clock read) against the real writer thread; the stream log is snapshotted inside the waker at the instant the flush future is completed and must already contain every entry appended before the request (or it was displaced) followed by a stream flush. A flush that never completes is a loom deadlock report.");
 }
 
